@@ -852,6 +852,7 @@ package grpctunnel
 //@   at call Send#1
 //@     assert[C05,C13] @creditframe arg0.StreamId == streamID && arg0.Frame is *tunnelpb.ServerToClient_WindowUpdate && as(arg0.Frame, *tunnelpb.ServerToClient_WindowUpdate).WindowUpdate == windowUpdate
 //@   ensures[C05,C13] @atmostone count("carrierSend") <= 1
+//@   ensures[C05]     @returned  count("carrierSend") == 0 ==> atomicLoad(str.halfClosed) != nil
 //@   assigns nothing
 //@   nopanic[C09]
 
@@ -1245,6 +1246,7 @@ package grpctunnel
 //@   at call Send#1
 //@     assert[C05,C13] @creditframe arg0.StreamId == streamID && arg0.Frame is *tunnelpb.ClientToServer_WindowUpdate && as(arg0.Frame, *tunnelpb.ClientToServer_WindowUpdate).WindowUpdate == windowUpdate
 //@   ensures[C05,C13] @atmostone count("carrierSend") <= 1
+//@   ensures[C05]     @returned  count("carrierSend") == 0 ==> atomicLoad(str.done) != nil
 //@   assigns nothing
 //@   nopanic[C09]
 
